@@ -50,7 +50,7 @@ class PipeSim(object):
 
     MAX_ROUNDS = 400
 
-    def __init__(self, layout):
+    def __init__(self, layout, add_pilot=True):
         self.problems = []
         self._n_comp = len(rpu_component._components)
         base = boot.fresh_dir('pipe.')
@@ -85,7 +85,9 @@ class PipeSim(object):
         self.tsched = make_scheduler('round_robin', self.client, self.tmgr.uid)
         self.tin  = _build(TmgrIn,  rpu.ClientComponent, self.client, 'tmgr.0000.staging.input.0000')
         self.tout = _build(TmgrOut, rpu.ClientComponent, self.client, 'tmgr.0000.staging.output.0000')
-        self.tmgr.add_pilots(self.pilot)     # real: control message to scheduler + stager
+        self.pilot_added = False
+        if add_pilot:
+            self.add_pilot()
 
         # ---- agent side
         self.agent._cfg.update({'pid': PID})
@@ -110,6 +112,11 @@ class PipeSim(object):
         self.spec  = {}
         self.cancel_req = set()
         self.n_exec_threads = 0
+
+    def add_pilot(self):
+        if not self.pilot_added:
+            self.pilot_added = True
+            self.tmgr.add_pilots(self.pilot)     # real: control message to scheduler + stager
 
     # --------------------------------------------------------------------------
     def bad(self, sig, msg=''):
@@ -154,6 +161,8 @@ class PipeSim(object):
             uid = 'task.%06d' % i
             d = {'uid': uid, 'executable': '/bin/true', 'ranks': s.get('ranks', 1),
                  'cores_per_rank': s.get('cores_per_rank', 1)}
+            if s.get('named'):
+                d['pilot'] = PID
             ins, outs = [], []
             if s.get('stage_in'):
                 src = os.path.join(self.cdir, 'in.%d.dat' % i)
@@ -348,7 +357,8 @@ class PipeSim(object):
 
 
 def run_pipeline(case):
-    sim = PipeSim(case.get('layout') or {'nodes': 2, 'cores': 4, 'gpus': 0, 'lfs': 0, 'mem': 0})
+    sim = PipeSim(case.get('layout') or {'nodes': 2, 'cores': 4, 'gpus': 0, 'lfs': 0, 'mem': 0},
+                  add_pilot=not case.get('late_add'))
     try:
         for op in case.get('ops', []):
             if op[0] == 'submit':
@@ -360,6 +370,9 @@ def run_pipeline(case):
                 sim.cancel([int(k) for k in op[1]])
             elif op[0] == 'pump':
                 sim.pump()
+            elif op[0] == 'add_pilot':
+                sim.add_pilot()
+        sim.add_pilot()
         if sim.pump(case.get('order', [])):
             first = set(t.uid for t in sim.tasks)
             sim.judge(first)
